@@ -70,7 +70,10 @@ static void judge(const uint8_t* img, size_t n, const ref_file* rf, const ref_pa
 }
 
 static void damage_all(const uint8_t* img, size_t n, const shape_t* sh, const char* fdesc, bool deep) {
-    ref_file rf; if (ref_pq_read(&RA, img, n, &rf, 0)) mc_harness_error("reference reader rejects the seed file: %s (%s)", rf.err, fdesc);
+    ref_file rf; if (ref_pq_read(&RA, img, n, &rf, 0)) {
+        /* a file carquet wrote whose page checksums are not the CRC-32 of the page bytes is a C14 violation, not a harness problem */
+        if (strstr(fdesc, "dmg:carquet") && !strncmp(rf.err, "crc:", 4)) { mc_fail("writer.page-crc-is-not-crc32", "%s: %s", fdesc, rf.err); ref_arena_free(&RA); return; }
+        mc_harness_error("reference reader rejects the seed file: %s (%s)", rf.err, fdesc); }
     /* undamaged: never a checksum error, in every mode */
     for (int mode = 0; mode < 3; mode++) {
         carquet_error_t err = CARQUET_ERROR_INIT; carquet_reader_t* rd = open_mode(mode, img, n, 1, &err); if (!rd) { mc_fail("undamaged.open-failed", "%s mode=%d code %d", fdesc, mode, err.code); continue; }
